@@ -62,7 +62,7 @@ def gen_scripts(tier, seed):
             scripts.append(("early-close-e", "ce,o%d,d5,o%d" % (a, b)))
             scripts.append(("exit-code", "e%d,o%d,x%d" % (a, b, r.choice([1, 3, 100, 255]))))
             scripts.append(("par-delays", "o%d,d10,o%d|d3,e%d,d10,e%d" % (a, b, b, a)))
-    n_rand = 60 if tier == "quick" else 2500
+    n_rand = 300 if tier == "quick" else 4000
     for _ in range(n_rand):
         left, right = [], []
         for _ in range(r.randint(1, 5)):
@@ -76,7 +76,7 @@ def gen_scripts(tier, seed):
     if tier == "quick":
         keep = [s for s in scripts if s[0] != "seq-e-first" and s[0] != "seq-o-first"]
         seqs = [s for s in scripts if s[0] in ("seq-e-first", "seq-o-first")]
-        scripts = keep + r.sample(seqs, 80) + [("seq-e-first", "e%d,o%d" % (4 * PIPE, 4 * PIPE)), ("seq-o-first", "o%d,e%d" % (4 * PIPE, 4 * PIPE)),
+        scripts = keep + r.sample(seqs, 140) + [("seq-e-first", "e%d,o%d" % (4 * PIPE, 4 * PIPE)), ("seq-o-first", "o%d,e%d" % (4 * PIPE, 4 * PIPE)),
                                                 ("seq-e-first", "e200000,o1"), ("seq-o-first", "o200000,e1")]
     cases = []
     for i, (cls, s) in enumerate(scripts):
